@@ -139,7 +139,7 @@ impl Builder {
             let node = *self.r.pick(&honest);
             let l = self.r.log_range(len.0.max(1), len.1) as usize;
             let client = self.r.below(clients.max(1));
-            self.sc.events.push(TimedEvent { t_us: t, kind: EventKind::Tx { client, node, len: l.max(9), first: 1, uid: self.uid } });
+            self.sc.events.push(TimedEvent { t_us: t, kind: EventKind::Tx { client, node, len: l.max(9), first: 1 + (self.uid % 200) as u8, uid: self.uid } });
             self.uid += 1;
         }
     }
@@ -335,4 +335,287 @@ pub fn for_prop(prop: &str, seed: u64, thorough: bool) -> Scenario {
         "base" => base(seed),
         _ => chaos(prop, seed, thorough),
     }
+}
+
+/// C12: the mempool dissemination path under ACK delays, mute peers, unequal stakes.
+pub fn c12(seed: u64, thorough: bool) -> Scenario {
+    let mut b = Builder::new("C12", seed);
+    let sizes: &[usize] = if thorough { &[4, 5, 6, 7, 10] } else { &[4, 4, 5, 7] };
+    b.committee(sizes, true);
+    if b.r.chance(0.3) {
+        // Strongly unequal stakes: one dominant member just below a third, several light ones.
+        let n = b.sc.n;
+        let mut s = vec![1u32; n];
+        s[b.r.below(n)] = ((n as u32 - 1) / 2).max(1);
+        b.sc.stakes = s;
+    }
+    b.params((400, 1_500), false);
+    b.latency(0.05);
+    for p in b.sc.params.iter_mut() {
+        p.batch_size = *b.r.pick(&[64usize, 200, 1_000]);
+        p.max_batch_delay = *b.r.pick(&[10u64, 40, 150]);
+    }
+    b.sc.duration_us = b.t_us * b.r.range(10, 25);
+    b.boots(0);
+    let dur = b.sc.duration_us;
+    let txs = b.r.range(40, 200) as usize;
+    b.load(txs, b.t_us / 4, dur - b.t_us, (16, 300), 3);
+    let all = b.all_nodes();
+    // mute-ack: the reply direction of some mempool links is held for a while (or for ever).
+    let k = b.r.range(0, 4);
+    for _ in 0..k {
+        let j = b.r.below(b.sc.n);
+        let t0 = b.r.range(0, dur);
+        let t1 = if b.r.chance(0.3) { FOREVER } else { t0 + b.r.range(b.t_us / 10, 3 * b.t_us) };
+        b.sc.net.rules.push(Rule { t0_us: t0, t1_us: t1, src: bit(j), dst: all & !bit(j), bidir: false, svc_mask: 1 << SVC_MEMPOOL, kind: RuleKind::Stall, reply_only: true, label: "mute-ack".into() });
+    }
+    // Slow or cut mempool links.
+    if b.r.chance(0.5) {
+        let k = b.r.range(1, 3);
+        for _ in 0..k {
+            let j = b.r.below(b.sc.n);
+            let t0 = b.r.range(0, dur);
+            let len = b.r.range(b.t_us / 5, 4 * b.t_us);
+            let kind = if b.r.chance(0.5) { RuleKind::Block } else { RuleKind::Delay(b.r.range(10_000, 400_000)) };
+            let label = if kind == RuleKind::Block { "mempool-cut" } else { "mempool-delay" };
+            b.sc.net.rules.push(Rule { t0_us: t0, t1_us: t0 + len, src: bit(j), dst: all & !bit(j), bidir: true, svc_mask: 1 << SVC_MEMPOOL, kind, reply_only: false, label: label.into() });
+        }
+    }
+    if b.r.chance(0.4) {
+        let k = b.r.range(2, 12) as usize;
+        b.random_resets(k, 1 << SVC_MEMPOOL);
+    }
+    if b.r.chance(0.3) {
+        b.mute(0.15, (1.1, 2.0), 0.3, 300);
+    }
+    if b.r.chance(0.3) {
+        b.buggify_io();
+    }
+    b.tokio_knobs();
+    b.finish()
+}
+
+/// C11: batching under every transaction size and arrival timing, on a healthy network.
+pub fn c11(seed: u64, thorough: bool) -> Scenario {
+    let mut b = Builder::new("C11", seed);
+    b.committee(&[4], false);
+    b.params((1_000, 2_000), false);
+    b.sc.net.base_lat_us = (500, 3_000);
+    b.sc.net.jitter_us = 500;
+    b.sc.net.connect_lat_us = (200, 1_000);
+    for i in 0..b.sc.n {
+        b.sc.params[i].batch_size = *b.r.pick(&[1usize, 9, 50, 200, 1_000]);
+        b.sc.params[i].max_batch_delay = *b.r.pick(&[5u64, 20, 50, 100]);
+    }
+    b.sc.duration_us = if thorough { 6_000_000 } else { 3_000_000 };
+    b.boots(0);
+    let dur = b.sc.duration_us;
+    // Load only on node 0 and 1 so that each keeps several client connections busy.
+    let targets = [0usize, 1];
+    let bench = cfg!(feature = "bench");
+    let count = b.r.range(30, if thorough { 300 } else { 120 });
+    let mut t = 100_000u64;
+    let mut small1 = 0u64;
+    b.uid = 1_000;
+    for _ in 0..count {
+        let node = *b.r.pick(&targets);
+        let p = b.sc.params[node].clone();
+        let bs = p.batch_size as u64;
+        // Sizes around the interesting boundaries.
+        let len = match b.r.below(10) {
+            0 => 0,
+            1 => 1,
+            2 => 8,
+            3 => 9,
+            4 => bs.saturating_sub(1),
+            5 => bs,
+            6 => bs + 1,
+            7 => bs * b.r.range(2, 3) + b.r.range(0, 7),
+            _ => b.r.range(10, 120),
+        } as usize;
+        // Arrival relative to the seal timer: bursts, trickles, exactly one period apart.
+        let gap = match b.r.below(5) {
+            0 => 0,
+            1 => b.r.range(1, 900),
+            2 => p.max_batch_delay * 1_000,
+            3 => p.max_batch_delay * 1_000 + b.r.range(0, 2) * 1_000 - 1_000,
+            _ => b.r.range(1_000, 3 * p.max_batch_delay * 1_000),
+        };
+        t += gap;
+        if t + 500_000 > dur {
+            break;
+        }
+        // Empty transactions go to node 0 only and one-byte ones are unique, so that every batch
+        // is attributable to its creator by content.
+        let mut len = len;
+        if len == 0 && node != 0 {
+            len = 2;
+        }
+        let mut uid = b.uid;
+        b.uid += 1;
+        if len == 1 {
+            small1 += 1;
+            if small1 > 255 {
+                len = 2;
+            } else {
+                uid = small1;
+            }
+        }
+        // In the benchmark build the first byte 0 marks a "sample" transaction.
+        let first = if bench && b.r.chance(0.4) { 0 } else { b.r.range(0, 255) as u8 };
+        let client = b.r.below(3);
+        b.sc.events.push(TimedEvent { t_us: t, kind: EventKind::Tx { client, node, len, first, uid } });
+    }
+    b.tokio_knobs();
+    b.finish()
+}
+
+/// C13: end to end without view changes; nodes that miss batch broadcasts must fetch them.
+pub fn c13(seed: u64, thorough: bool) -> Scenario {
+    let mut b = Builder::new("C13", seed);
+    let sizes: &[usize] = if thorough { &[4, 5, 7] } else { &[4, 4, 5] };
+    b.committee(sizes, false);
+    b.params((2_000, 4_000), false);
+    // Latencies of a few milliseconds to a few tens keep the number of rounds (the cost) moderate.
+    let lo = b.r.range(4_000, 12_000);
+    b.sc.net.base_lat_us = (lo, lo + b.r.range(500, 25_000));
+    b.sc.net.jitter_us = b.r.range(0, 4_000);
+    b.sc.net.connect_lat_us = (200, b.r.range(500, 10_000));
+    for p in b.sc.params.iter_mut() {
+        p.sync_retry_delay = *b.r.pick(&[500u64, 1_000, 2_000]);
+        p.gc_depth = 10_000; // garbage collection of pending sync requests is out of scope here
+    }
+    let load_end = b.r.range(2_000_000, 6_000_000);
+    b.boots(0);
+    let txs = b.r.range(20, 120) as usize;
+    b.load(txs, 200_000, load_end, (16, 400), 3);
+    let all = b.all_nodes();
+    // A node misses batch broadcasts: its mempool links are cut for a while (batches to it are
+    // cancelled once a quorum acknowledged them), possibly also towards the proposer afterwards.
+    let k = b.r.range(0, 2);
+    for _ in 0..k {
+        let j = b.r.below(b.sc.n);
+        let t0 = b.r.range(100_000, load_end);
+        let len = b.r.range(200_000, 3_000_000);
+        let peers = if b.r.chance(0.5) { all & !bit(j) } else { bit((j + 1 + b.r.below(b.sc.n - 1)) % b.sc.n) };
+        b.sc.net.rules.push(Rule { t0_us: t0, t1_us: (t0 + len).min(load_end + 1_000_000), src: bit(j), dst: peers & !bit(j), bidir: true, svc_mask: 1 << SVC_MEMPOOL, kind: RuleKind::Block, reply_only: false, label: "miss-batch".into() });
+    }
+    if b.r.chance(0.4) {
+        b.clock_jumps(2);
+    }
+    let retry = b.sc.params[0].sync_retry_delay * 1_000;
+    b.sc.bounds.e2e_deadline_us = load_end;
+    // A backward jump of the wall clock postpones the retry of a sync request by its size.
+    let back: u64 = b.sc.net.clock_jumps.iter().filter(|(_, d)| *d < 0).map(|(_, d)| (-*d) as u64 * 1_000).sum();
+    b.sc.duration_us = load_end + 1_000_000 + 2 * (retry + 8_000_000) + back;
+    b.tokio_knobs();
+    b.finish()
+}
+
+/// C06: up to f crashes at arbitrary instants, arbitrary delays before stabilisation, then
+/// timely delivery; nothing is lost between live nodes.
+pub fn c06(seed: u64, thorough: bool) -> Scenario {
+    let mut b = Builder::new("C06", seed);
+    let sizes: &[usize] = &[4, 5, 6, 7];
+    b.committee(sizes, true);
+    let skew = b.r.chance(0.4);
+    b.params((300, 1_000), skew);
+    let t_max = b.sc.params.iter().map(|p| p.timeout_delay).max().unwrap() * 1_000;
+    let t_min = b.sc.params.iter().map(|p| p.timeout_delay).min().unwrap() * 1_000;
+    // After stabilisation every message takes well below the smallest round timeout.
+    let cap = t_min / 12;
+    let lo = b.r.log_range(300, 3_000).min(cap / 2);
+    b.sc.net.base_lat_us = (lo, b.r.range(lo + 100, cap.max(lo + 200)));
+    b.sc.net.jitter_us = b.r.range(0, cap / 4);
+    b.sc.net.connect_lat_us = (200, cap.max(400));
+    b.boots(0);
+    let t_stable = b.r.range(0, 8) * t_max;
+    // Pre-stabilisation chaos: spikes and finite stalls (nothing lost).
+    if t_stable > 0 {
+        if b.r.chance(0.7) {
+            let p = *b.r.pick(&[0.02, 0.1, 0.3]);
+            b.spikes(p, 3 * t_max, t_stable);
+        }
+        let k = b.r.range(0, 3);
+        for _ in 0..k {
+            let node = b.r.below(b.sc.n);
+            let t0 = b.r.range(0, t_stable);
+            let t1 = b.r.range(t0, t_stable);
+            let (o, i) = *b.r.pick(&[(true, true), (true, false), (false, true)]);
+            b.stall_node(node, t0, t1, o, i);
+        }
+    }
+    // Crashes: any set within the stake budget, at arbitrary instants.
+    let budget = b.max_faulty_stake();
+    let set = if b.r.chance(0.85) { b.faulty_set(budget, 2) } else { vec![] };
+    let mut last_crash = 0;
+    for i in &set {
+        let t = match b.r.below(4) {
+            0 => 0,
+            1 => b.r.range(0, t_stable.max(1)),
+            2 => t_stable,
+            _ => b.r.range(t_stable, t_stable + 6 * t_max),
+        };
+        last_crash = last_crash.max(t);
+        b.crash(*i, t);
+    }
+    let f = set.len() as u64;
+    let retry = b.sc.params[0].sync_retry_delay * 1_000;
+    let window = (2 * f + 4) * t_max + retry + 5_000_000 + 2_000_000;
+    b.sc.bounds.t_stable_us = t_stable.max(last_crash);
+    b.sc.bounds.liveness_window_us = window;
+    b.sc.duration_us = b.sc.bounds.t_stable_us + window * if thorough { 3 } else { 2 };
+    let dur = b.sc.duration_us;
+    let txs = b.r.range(5, 40) as usize;
+    b.load(txs, 0, dur, (16, 200), 2);
+    b.tokio_knobs();
+    b.finish()
+}
+
+/// C07: one node is cut off while the others keep committing, then reconnected.
+pub fn c07(seed: u64, thorough: bool) -> Scenario {
+    let mut b = Builder::new("C07", seed);
+    let sizes: &[usize] = if thorough { &[4, 5, 7] } else { &[4, 4, 5] };
+    b.committee(sizes, false);
+    b.params((400, 1_200), false);
+    // Larger latencies keep the number of rounds per virtual second (and the cost) moderate.
+    let lo = b.r.range(3_000, 10_000);
+    b.sc.net.base_lat_us = (lo, lo + b.r.range(1_000, 20_000));
+    b.sc.net.jitter_us = b.r.range(0, 3_000);
+    for p in b.sc.params.iter_mut() {
+        p.sync_retry_delay = *b.r.pick(&[1_000u64, 2_000, 5_000]);
+    }
+    b.boots(0);
+    let lagger = b.r.below(b.sc.n);
+    let t0 = b.r.range(0, 5 * b.t_us);
+    let len = b.r.log_range(b.t_us / 4, if thorough { 12 * b.t_us } else { 6 * b.t_us });
+    let heal = t0 + len;
+    let all = b.all_nodes();
+    b.sc.net.rules.push(Rule { t0_us: t0, t1_us: heal, src: bit(lagger), dst: all & !bit(lagger), bidir: true, svc_mask: ALL_SVC, kind: RuleKind::Block, reply_only: false, label: "isolate".into() });
+    // View changes inside the gap (slow leaders among the others only happen by the seeded set).
+    if b.r.chance(0.4) {
+        b.mute(0.1, (1.1, 1.6), 0.0, 2_000);
+    }
+    // Unresponsive first sync target: one peer's consensus port is mute towards the lagger.
+    if b.r.chance(0.5) {
+        let p = (lagger + 1 + b.r.below(b.sc.n - 1)) % b.sc.n;
+        let until = heal + b.r.range(b.t_us, 4 * b.t_us);
+        b.sc.net.rules.push(Rule { t0_us: heal, t1_us: until, src: bit(lagger), dst: bit(p), bidir: true, svc_mask: 1 << SVC_CONSENSUS, kind: RuleKind::Stall, reply_only: false, label: "mute-sync-target".into() });
+    }
+    if b.r.chance(0.4) {
+        b.clock_jumps(2);
+    }
+    let retry = b.sc.params[0].sync_retry_delay * 1_000;
+    let window = 6 * b.t_us + retry + 7_000_000;
+    let reconnect = (2 * len).max(1_000_000).min(62_000_000);
+    b.sc.bounds.lagger = Some(lagger);
+    b.sc.bounds.heal_us = heal;
+    b.sc.bounds.liveness_window_us = window;
+    b.sc.bounds.catchup_deadline_us = heal + reconnect + retry + 10_000_000 + window;
+    b.sc.duration_us = b.sc.bounds.catchup_deadline_us;
+    let dur = b.sc.duration_us;
+    let txs = b.r.range(5, 40) as usize;
+    b.load(txs, 0, dur.min(20_000_000), (16, 200), 2);
+    b.tokio_knobs();
+    b.finish()
 }
